@@ -107,7 +107,8 @@ func main() {
 		}
 		// share the remaining budget evenly over the remaining scenarios
 		remain := time.Until(deadline)
-		dl := time.Now().Add(remain / time.Duration(len(names)-i))
+		left := len(names) - i
+		dl := time.Now().Add(remain / time.Duration((left+2)/3))
 		st := h.Explore(sc, *workers, dl, args)
 		rep.Stats = append(rep.Stats, st)
 		fmt.Printf("  scenario %-40s P=%d F=%d executions=%d outcomes=%d states=%d exhaustive=%v %s wall=%.1fs classes=%v\n",
